@@ -121,31 +121,110 @@ func isErrorValue(v ssa.Value) bool {
 
 // reachesAvoidingEdge: is the accept point reachable from entry when edge
 // from->to is removed?
+//
+// The walk threads jumps through merge blocks: when block b is entered from predecessor p and b ends in a branch on a
+// φ of b (a boolean φ, or a φ compared with nil) whose operand on the edge p→b is a constant (true / false / nil) or a
+// definite error value, only the successor that operand selects is followed.  `v, err := helper(x); if err != nil
+// { return }` with the helper expanded in place, and (value, ok) helpers, merge their exits into such a φ; without
+// threading every fact established inside the helper is lost at the merge.  Dropping paths that cannot execute
+// keeps the "must" facts true.
 func reachesAvoidingEdge(fn *ssa.Function, ap AcceptPoint, from, to *ssa.BasicBlock) bool {
-	seen := map[*ssa.BasicBlock]bool{}
-	var stack []*ssa.BasicBlock
-	stack = append(stack, fn.Blocks[0])
+	type arrival struct{ b, p *ssa.BasicBlock }
+	seen := map[arrival]bool{}
+	stack := []arrival{{fn.Blocks[0], nil}}
 	for len(stack) > 0 {
-		b := stack[len(stack)-1]
+		a := stack[len(stack)-1]
 		stack = stack[:len(stack)-1]
-		if seen[b] {
+		if seen[a] {
 			continue
 		}
-		seen[b] = true
+		seen[a] = true
+		b := a.b
 		if ap.Pred == nil && b == ap.Block {
 			return true
 		}
+		only := threadedSucc(b, a.p)
 		for _, s := range b.Succs {
+			if only != nil && s != only {
+				continue
+			}
 			if b == from && s == to {
 				continue
 			}
 			if ap.Pred != nil && b == ap.Pred && s == ap.Block {
 				return true
 			}
-			stack = append(stack, s)
+			stack = append(stack, arrival{s, b})
 		}
 	}
 	return false
+}
+
+// threadedSucc: the one successor of b that can be taken when b was entered from p, or nil when both can.
+func threadedSucc(b, p *ssa.BasicBlock) *ssa.BasicBlock {
+	if p == nil || len(b.Succs) != 2 || b.Succs[0] == b.Succs[1] {
+		return nil
+	}
+	iff, ok := lastInstr(b).(*ssa.If)
+	if !ok {
+		return nil
+	}
+	pi := -1
+	for i, q := range b.Preds {
+		if q == p {
+			if pi >= 0 {
+				return nil // two edges from the same predecessor
+			}
+			pi = i
+		}
+	}
+	if pi < 0 {
+		return nil
+	}
+	v, neg := iff.Cond, false
+	for {
+		if u, ok := v.(*ssa.UnOp); ok && u.Op == token.NOT {
+			v, neg = u.X, !neg
+			continue
+		}
+		break
+	}
+	known, truth := false, false
+	switch x := v.(type) {
+	case *ssa.Phi:
+		if x.Block() == b && pi < len(x.Edges) {
+			if bv, isB := constBool(x.Edges[pi]); isB {
+				known, truth = true, bv
+			}
+		}
+	case *ssa.BinOp:
+		if x.Op != token.EQL && x.Op != token.NEQ {
+			return nil
+		}
+		var ph *ssa.Phi
+		if isNilConst(x.Y) {
+			ph, _ = x.X.(*ssa.Phi)
+		} else if isNilConst(x.X) {
+			ph, _ = x.Y.(*ssa.Phi)
+		}
+		if ph == nil || ph.Block() != b || pi >= len(ph.Edges) {
+			return nil
+		}
+		e := ph.Edges[pi]
+		switch {
+		case isNilConst(e):
+			known, truth = true, x.Op == token.EQL
+		case isErrorValue(e), knownNonNil(p, e):
+			known, truth = true, x.Op == token.NEQ
+		}
+	}
+	if !known {
+		return nil
+	}
+	if truth != neg {
+		return b.Succs[0]
+	}
+	return b.Succs[1]
 }
 
 // MustConds returns every branch condition that all paths to ap satisfy.
